@@ -22,10 +22,13 @@ func c08Session(backend string) (*sm.Session, error) { return sm.NewSession("C08
 func init() { registerSM("C08", "c08", c08Session) }
 
 func TestC08(t *testing.T) {
-	col := collector("C08", ruleC08)
+	check(t, "C08", cases(9000, 250000), 0, propC08(collector("C08", ruleC08)))
+}
+
+func propC08(col *ev.Collector) func(rt *rapid.T) {
 	backends := []string{run.Bbolt, run.Bbolt, run.BadgerMem}
 	fields := []string{"x", "y", "xy"}
-	check(t, "C08", cases(6000, 120000), 0, func(rt *rapid.T) {
+	return func(rt *rapid.T) {
 		backend := rapid.SampledFrom(backends).Draw(rt, "backend")
 		s, err := c08Session(backend)
 		if err != nil {
@@ -55,11 +58,24 @@ func TestC08(t *testing.T) {
 				}
 				d[f] = cs.Clone(rapid.SampledFrom(palette).Draw(rt, "val"))
 			}
+			// the nested sort key n.a: n is an object holding a, an object without it, a scalar or
+			// absent; a top-level field a is a decoy the path lookup must not fall back to
+			switch rapid.IntRange(0, 5).Draw(rt, "nshape") {
+			case 0, 1:
+				d["n"] = map[string]interface{}{"a": cs.Clone(rapid.SampledFrom(palette).Draw(rt, "nval"))}
+			case 2:
+				d["n"] = map[string]interface{}{"b": int64(1)}
+			case 3:
+				d["n"] = rapid.SampledFrom([]interface{}{int64(7), "s", nil, []interface{}{}}).Draw(rt, "nscalar")
+			}
+			if _, isObj := d["n"].(map[string]interface{}); !isObj && rapid.Bool().Draw(rt, "decoy") {
+				d["a"] = cs.Clone(rapid.SampledFrom(palette).Draw(rt, "decoyval"))
+			}
 			docs[i] = d
 		}
 		ixFields := []string{}
 		for i := 0; i < nIdx; i++ {
-			ixFields = append(ixFields, rapid.SampledFrom([]string{"x", "y", "xy", "_id", "u"}).Draw(rt, "ixfield"))
+			ixFields = append(ixFields, rapid.SampledFrom([]string{"x", "y", "xy", "_id", "u", "n.a"}).Draw(rt, "ixfield"))
 		}
 		ixFirst := rapid.Bool().Draw(rt, "index-first")
 		do(cs.Op{Kind: "createcoll", Coll: "A"})
@@ -85,7 +101,7 @@ func TestC08(t *testing.T) {
 		if !ixFirst {
 			mkIdx()
 		}
-		env := gen.CritEnv{Val: vcfg, Fields: []string{"x", "y", "xy", "u"}, Hot: ixFields, Values: palette, MaxDepth: 2, GoKinds: true}
+		env := gen.CritEnv{Val: vcfg, Fields: []string{"x", "y", "xy", "u", "n.a"}, Hot: ixFields, Values: palette, MaxDepth: 2, GoKinds: true}
 		nq := rapid.IntRange(3, 8).Draw(rt, "nqueries")
 		for qi := 0; qi < nq; qi++ {
 			q := &cs.Query{Coll: "A"}
@@ -96,11 +112,11 @@ func TestC08(t *testing.T) {
 				q.SortSet = true
 				ns := rapid.SampledFrom([]int{0, 1, 1, 1, 2, 2, 3}).Draw(rt, "nsort")
 				for i := 0; i < ns; i++ {
-					f := rapid.SampledFrom([]string{"x", "y", "xy", "u", "_id", "zz"}).Draw(rt, "sortfield")
+					f := rapid.SampledFrom([]string{"x", "y", "xy", "u", "_id", "zz", "n.a", "n.a"}).Draw(rt, "sortfield")
 					if len(ixFields) > 0 && rapid.IntRange(0, 2).Draw(rt, "sort-on-index") == 0 {
 						f = rapid.SampledFrom(ixFields).Draw(rt, "sortixfield")
 					}
-					q.Sort = append(q.Sort, cs.SortOpt{Field: f, Dir: rapid.SampledFrom([]int{-7, -1, 0, 1, 5}).Draw(rt, "dir")})
+					q.Sort = append(q.Sort, cs.SortOpt{Field: f, Dir: rapid.SampledFrom([]int{-7, -1, 0, 1, 5, -1, 1, math.MinInt64, math.MaxInt64, -(1 << 62), 1 << 61, math.MinInt32}).Draw(rt, "dir")})
 				}
 			}
 			if rapid.IntRange(0, 2).Draw(rt, "hasskip") != 0 {
@@ -195,5 +211,5 @@ func TestC08(t *testing.T) {
 		if ev.Thorough() {
 			col.Add("collections", 1)
 		}
-	})
+	}
 }
